@@ -192,7 +192,7 @@ PROPS = {
         impl_timeout=120,
     ),
     "C03": dict(
-        proof_modules=["KsVerif.Proofs.C03", "KsVerif.Proofs.C03Server", "KsVerif.Proofs.C03Trailer"],
+        proof_modules=["KsVerif.Proofs.C03", "KsVerif.Proofs.C03Server", "KsVerif.Proofs.C03Trailer", "KsVerif.Proofs.C03Report"],
         families=["http.conv", "http.entry", "http.h2c", "http.trailer"],
         rule="http.trailer: chunked HTTP/1.1 requests / responses whose last chunk is followed by trailer fields (announced by a "
              "Trailer header or not, one or several, repeating a header name, empty values, bodies of 0 / 3 / 9000 bytes, further "
